@@ -37,6 +37,12 @@ RULE = ("the complete value-category tables (get / pair get / forward / forward_
         "next to the matching ordinary one (Buf, std::vector<size_t>, Conv, Tree with initializer_list<Tree>; control Plain) x 6 value pairs "
         "+ 600 random (thorough 20000); the language rule (op initlang) for every form x class of the model's table; 43 compile-only probes "
         "(extra_checks, props/C20/wf_probes.py) of the combinations whose list form is ill-formed. "
+        "The conditional explicit-specifier of every pair / tuple constructor (op expl, the whole domain): is_constructible next to "
+        "the implicit fact (is_convertible / copy-list-initialisation through a call) for 12 sites (default, element-wise const&, "
+        "element-wise forwarding from rvalues / const lvalues, converting from a pair<U1,U2> const& / & / && / const&&; tuple default / "
+        "const& / forwarding) x all 64 pairs of 8 element codes (implicit, explicit-only, absent, value-category dependent) and tuples "
+        "of arity 0..3 (8 x 8 x 5), against libstdc++; the element table against the compiler (op explelem); the fixed explicitness of "
+        "the call wrappers' constructors and conversion functions (ops explw, explwx). "
         "non-trivial = distinct case line whose impl leg starts "
         "with ok / ill")
 
@@ -551,7 +557,7 @@ def gen_expl(tier, rng):
     """the conditionally explicit constructors of pair / tuple (c20_expl.inc): every site x every combination of the 8 element
     codes (implicit / explicit-only / absent conversions, value-category dependent or not) for pairs and for tuples of arity
     0..3 (third element: 5 codes), plus the element table itself against the compiler; the whole domain, both tiers"""
-    out = ["explelem %d" % c for c in range(8)] + ["explelem 8", "explelem -1"]
+    out = ["explelem %d" % c for c in range(8)] + ["explelem 8", "explelem -1", "explw", "explwx"]
     third = [0, 1, 2, 3, 7]
     for site in range(12):
         if site < 8:
